@@ -319,12 +319,11 @@ def minimise(chk, case, sig, budget=250, deadline_s=120.0):
     improved = True
     while improved and evals < budget and time.time() - t0 < deadline_s:
         improved = False
-        cands = list(generic_shrinks(cur))
-        try:
-            cands = list(chk.shrinks(cur)) + cands
-        except AttributeError:
-            pass
-        for cand in cands:
+        # candidates are produced lazily: a world of thousands of nodes has thousands of (deep-copied) candidates, and the
+        # deadline must be able to cut their production short
+        import itertools
+        own = chk.shrinks(cur) if hasattr(chk, "shrinks") else iter(())
+        for cand in itertools.chain(own, generic_shrinks(cur)):
             if evals >= budget or time.time() - t0 > deadline_s:
                 break
             if _case_key(cand) >= _case_key(cur):
@@ -440,7 +439,8 @@ def run_check(cid, tier, seed, workers=None, n_override=None, sigs_out=None):
             print("[fsim] further violation signature not minimised/reported this run: %s (%d cases)" % ("/".join(sig), len(items)), flush=True)
             exit_code = 1
             continue
-        index, v, case = items[0]
+        # start from the smallest case that shows this signature
+        index, v, case = min(items, key=lambda it: (case_size(it[2]) if it[2] is not None else 1 << 60, it[0]))
         # minimisation is bounded per signature and per run (later signatures get what is left, at least 10 s)
         left = max(10.0, 240.0 - (time.time() - t_min0))
         small, evals = minimise(chk, case, list(sig), deadline_s=min(90.0, left))
